@@ -108,6 +108,17 @@ def checkCompLine (kvs : List (String × String)) (rhs : String) : String := Id.
     match dsdd.splitOn ":" with
     | [_, tt] => if tt != cnfTT then return s!"FAIL SPEC compile_cnf under the dtree-derived vtree denotes {tt}, the clauses {cnfTT}"
     | _ => return "FAIL PARSE dsdd"
+  -- the twin expression (Iff <-> Xor, Ite branches exchanged) and the expression again, compiled
+  -- on the same builders: results must not depend on what was compiled before
+  match (lookup okv "twin").bind (fun s => parseExprAux s.toList) with
+  | some (e2, []) =>
+    let twinTT := ttString n (exprTextSem e2)
+    let some etw := get "etw" | return "FAIL PARSE etw"
+    if ttString n etw.eval != twinTT then return s!"FAIL SPEC compile_logical_expr of a second expression on the same BDD builder denotes {ttString n etw.eval}, the expression {twinTT}"
+    if lookup okv "eagain" != lookup okv "expr" then return "FAIL SPEC compiling the same expression again on the same BDD builder gives a different diagram"
+    if lookup okv "stw" != some twinTT then return s!"FAIL SPEC compile_logical_expr of a second expression on the same SDD builder denotes {lookup okv "stw"}, the expression {twinTT}"
+    if lookup okv "sagain" != lookup okv "sexpr" then return "FAIL SPEC compiling the same expression again on the same SDD builder gives a different diagram"
+  | _ => return "FAIL PARSE twin"
   -- mirrored model
   if Bdd.runCompileCnf order cs != some c1 then return s!"FAIL MODEL compile_cnf: model {(Bdd.runCompileCnf order cs).map printBdd}"
   if Bdd.runCompileCnfWithAssign order cs pm != some wa then return "FAIL MODEL compile_cnf_with_assignments"
